@@ -144,4 +144,62 @@ def diagLen : List DNode → Nat
   | .item cs :: r => multiple cs + diagLen r
   | _ :: r => diagLen r
 
+/-! ### names: `OmegaRecord._get_name` for diagonal records
+
+  The name of an item is the identifier of the first `; identifier` comment found among the NEWLINE / COMMENT
+  tokens that follow the item in parse order (its own children first) before the next `diag_item`:
+  `re.search(r';\s*([a-zA-Z_]\w*)', str(token))`.  ASCII classes of `\s` and `\w`. -/
+
+def isSpaceC (c : Char) : Bool :=
+  c == ' ' || c == '\t' || c == '\n' || c == '\r' || c == '\x0b' || c == '\x0c'
+def isIdentStartC (c : Char) : Bool := c.isAlpha || c == '_'
+def isWordC (c : Char) : Bool := c.isAlphanum || c == '_'
+
+/-- leftmost match of `;\s*([a-zA-Z_]\w*)`: at each `;` skip blanks; an identifier start decides, otherwise
+    go on with the next `;` (giving back blanks cannot produce an identifier start) -/
+def commentNameAux : List Char → Option String
+  | [] => none
+  | c :: r =>
+    if c == ';' then
+      match r.dropWhile isSpaceC with
+      | [] => commentNameAux r
+      | d :: r' => if isIdentStartC d then some (String.ofList (d :: r'.takeWhile isWordC)) else commentNameAux r
+    else commentNameAux r
+
+def commentName (s : String) : Option String := commentNameAux s.toList
+
+/-- only NEWLINE and COMMENT tokens are looked at -/
+def tokName (t : TNode) : Option String :=
+  if t.rule = "NEWLINE" || t.rule = "COMMENT" then commentName t.text else none
+
+def firstName : List TNode → Option String
+  | [] => none
+  | t :: r => match tokName t with
+    | some n => some n
+    | none => firstName r
+
+/-- the nodes that follow an item up to the next item -/
+def trailing : List DNode → List TNode
+  | [] => []
+  | .item _ :: _ => []
+  | .tok t :: r => t :: trailing r
+  | .diagonal t :: r => t :: trailing r
+
+/-- the name of every `diag_item` of the record, in order -/
+def diagNames : List DNode → List (Option String)
+  | [] => []
+  | .item cs :: r => firstName (cs ++ trailing r) :: diagNames r
+  | _ :: r => diagNames r
+
+def noDiagonal : List DNode → Bool
+  | [] => true
+  | .diagonal _ :: _ => false
+  | _ :: r => noDiagonal r
+
+/-- what the grammar guarantees: `DIAGONAL(n)` can only stand in front of the first item -/
+def diagonalInFront : List DNode → Bool
+  | [] => true
+  | .item _ :: r => noDiagonal r
+  | _ :: r => diagonalInFront r
+
 end Pharmpy.C04
